@@ -1020,7 +1020,7 @@ def c16(ctx):
 
 @check("C19")
 def c19(ctx):
-    cov = store_check(ctx, ["expiry"], ["expiry"], 150, 2500,
+    cov = store_check(ctx, ["expiry"], ["expiry", "expiryauto"], 150, 2500,
                       "Store.tla models expiry: a secret is marked expired in the poll snapshot iff undeclared, an age is set, not read for longer "
                       "than the age and no handle exists; it is dropped at the end of a successful poll unless a handle appeared meanwhile. TLC "
                       "checks DropRule / NeverDropDeclared / HandleNeverDangles over reads, handles, polls, clock steps and restarts from caches with "
